@@ -8,10 +8,11 @@ function = "Circuit::expandCellsToDensity, expandCellsByFactor, computeRowPlacem
 variants = [
   {name = "byFactor", enforce = "Circuit_expandCellsByFactor", tier = "thorough", timeout = 3000, defines = ["H_FACTOR"], replace = ["Circuit_computeRowPlacementArea"]},
   {name = "byFactorStep", enforce = "factor_step", defines = ["H_FSTEP"]},
+  {name = "toDensityWidth", enforce = "density_width", defines = ["H_DWIDTH"]},
   {name = "toDensityStep", enforce = "density_step", defines = ["H_DSTEP"]},
   {name = "toDensityFrame", enforce = "Circuit_expandCellsToDensity", defines = ["H_DFRAME"], replace = ["Circuit_computeRowPlacementArea"]},
 ]
-assumptions = ["the density cap ('utilisation not above the target beyond rounding', 'within one cell height of target*area') is a sum over all cells in double arithmetic: NOT decided here (the per-cell carry step is proved: the width is the rounded-down fractional width plus whole units of carried area, the carry stays in [0, h))",
+assumptions = ["the density cap ('utilisation not above the target beyond rounding', 'within one cell height of target*area') is a sum over all cells in double arithmetic: NOT decided here (the per-cell step is proved in two halves: the width is the capped fractional width rounded down, never below the old width under a sufficient cap; the carry receives exactly the AREA h * (fractional - integer width), whole units of width are taken back from it, it stays in [0, h); NOT proved: carry on exit = carry after the addition - h * units (exact repeated double subtraction)",
                "computeRowPlacementArea is replaced by a contract (non-negative area) in the two whole-function variants; computeCellExpansion (std::sort + structured bindings over pairs) is not under contract",
                "termination of the inner carry loop 'while (missingArea >= h)' is not proved (no integer variant over doubles)"]
 @*/
@@ -113,38 +114,68 @@ text = '''return g_wcell;'''
 #undef expansion
 #endif
 
-#ifdef H_DSTEP
-/* the per-cell step of expandCellsToDensity (loop body sliced from the repo), from an arbitrary carry */
-double g_missing0;
-int density_step(int h, int w, double expansionFactor, double maxCellWidth, double *missingArea_p)
-__CPROVER_requires(__CPROVER_is_fresh(missingArea_p, sizeof(double)) && 1 <= h && h <= 4194304 && 1 <= w && w <= 4194304)
-__CPROVER_requires(expansionFactor > 1.0 && expansionFactor <= 1.0e6 && maxCellWidth >= 1.0 && maxCellWidth <= 1.0e9)
-__CPROVER_requires(*missingArea_p >= 0.0 && *missingArea_p <= 4194304.0 && g_missing0 == *missingArea_p)
-/* C18: never narrower when the cap is not below the current width; never wider than the cap plus the carried area */
+#ifdef H_DWIDTH
+/* first half of the per-cell step of expandCellsToDensity: the capped fractional width and its integer part */
+double g_fracW;
+int density_width(int h, int w, double expansionFactor, double maxCellWidth)
+__CPROVER_requires(1 <= h && h <= 4194304 && 1 <= w && w <= 4194304 && expansionFactor > 1.0 && expansionFactor <= 1.0e6 && maxCellWidth >= 1.0 && maxCellWidth <= 1.0e9)
+/* C18: never narrower when the cap is not below the current width; the width before the carry is the capped fractional width rounded down */
 __CPROVER_ensures(maxCellWidth >= (double)w ==> __CPROVER_return_value >= w)
-__CPROVER_ensures(*missingArea_p >= 0.0 && *missingArea_p < (double)h)
-__CPROVER_assigns(*missingArea_p)
-#define missingArea (*missingArea_p)
+__CPROVER_ensures(g_fracW >= 1.0 && g_fracW <= 1.0e9 && g_fracW <= maxCellWidth && __CPROVER_return_value >= 1 && (double)__CPROVER_return_value <= g_fracW && g_fracW - (double)__CPROVER_return_value < 1.0)
+__CPROVER_assigns(g_fracW)
 /*@extract
 file = "src/coloquinte.cpp"
 head = 'void Circuit::expandCellsToDensity\('
 slice_from = 'double fracW = w \* expansionFactor;'
-slice_to = 'cellWidth_\[i\] = newW;'
-nloops = 1
-[[loops]]
-ordinal = 1
-contract = '''
-__CPROVER_assigns(newW, missingArea)
-__CPROVER_loop_invariant(missingArea >= 0.0 && newW >= g_new0 && newW <= g_new0 + 8388609 && missingArea <= 8388609.0 - (double)(newW - g_new0))
-'''
-[[ghosts]]
-at = 'before:1'
-text = '''GHOST(const int g_new0 = newW;) __CPROVER_assert(newW >= 0 && (double)newW <= fracW && fracW - newW < 1.0, "spec: the width is the fractional width rounded down");'''
+slice_to = '(?<=int newW = \(int\)fracW;)'
 [[ghosts]]
 at = 'end'
-text = '''return newW;'''
+text = """GHOST(g_fracW = fracW;) return newW;"""
 @*/
-#undef missingArea
+#endif
+
+#ifdef H_DSTEP
+/* second half of the per-cell step (loop body sliced from the repo): the carry, from an arbitrary carry and an arbitrary capped fractional width */
+double g_in, g_m1; int g_new0, g_K; long long g_P;   /* ghost: carry on entry, integer part of the width, width units added from the carry and their area */
+int density_step(int h, double fracW, double *carry_p)
+__CPROVER_requires(__CPROVER_is_fresh(carry_p, sizeof(double)) && 1 <= h && h <= 4194304 && fracW >= 1.0 && fracW <= 1.0e9)
+__CPROVER_requires(*carry_p >= 0.0 && *carry_p <= 4194304.0 && g_in == *carry_p && g_K == 0 && g_P == 0)
+/* C18 (utilisation never above the target beyond rounding; movable area within one cell height of the target): the carry is an AREA:
+ * it receives exactly h * (fractional width - integer width) (g_m1 = carry right after that addition), it stays below one row of the cell,
+ * and g_K whole units of width are taken back from it.  NOT proved: that the carry on exit equals g_m1 - h * g_K (repeated exact
+ * subtraction in double arithmetic: no back end finishes) */
+__CPROVER_ensures(*carry_p >= 0.0 && *carry_p < (double)h)
+__CPROVER_ensures(__CPROVER_return_value == g_new0 + g_K && g_K >= 0 && g_new0 >= 1 && (double)g_new0 <= fracW && fracW - (double)g_new0 < 1.0)
+__CPROVER_ensures(g_m1 == g_in + (double)h * (fracW - (double)g_new0) && *carry_p <= g_m1)
+__CPROVER_assigns(*carry_p, g_new0, g_K, g_P, g_m1)
+/*@extract
+file = "src/coloquinte.cpp"
+head = 'void Circuit::expandCellsToDensity\('
+captures = [['CARRY', 'double (\w+) = 0\.0;\s*for \(int i = 0; i < nbCells\(\); \+\+i\) \{\s*if \(!cellIsFixed_\[i\]\)']]
+slice_from = 'int newW = \(int\)fracW;'
+slice_to = 'cellWidth_\[i\] = newW;'
+rewrites = [['\b${CARRY}\b', '(*carry_p)', '1+']]
+[[loops]]
+ordinal = 1
+optional = true
+contract = """
+__CPROVER_assigns(newW, *carry_p, g_K, g_P)
+__CPROVER_loop_invariant(*carry_p >= 0.0 && 0 <= g_K && g_K <= 8388609 && newW == g_new0 + g_K && *carry_p <= 8388609.0 - (double)g_K && *carry_p <= g_m1 && 0 <= g_P && g_P <= (long long)g_K * 4194304)
+"""
+[[ghosts]]
+after = 'int newW = \(int\)fracW;'
+text = """GHOST(g_new0 = newW;)"""
+[[ghosts]]
+after = '\(\*carry_p\) \+= [^;]*;'
+text = """GHOST(g_m1 = *carry_p;)"""
+[[ghosts]]
+after = '\+\+newW;'
+count = '1+'
+text = """GHOST(g_K++; g_P += h;)"""
+[[ghosts]]
+at = 'end'
+text = """return newW;"""
+@*/
 #endif
 
 #ifdef H_DFRAME
@@ -158,7 +189,7 @@ __CPROVER_assigns(__CPROVER_object_whole(cellWidth_))
 /*@extract
 file = "src/coloquinte.cpp"
 head = 'void Circuit::expandCellsToDensity\('
-nloops = 4
+captures = [['CARRY', 'double (\w+) = 0\.0;\s*for \(int i = 0; i < nbCells\(\); \+\+i\) \{\s*if \(!cellIsFixed_\[i\]\)']]
 rewrites = [['row\.width\(\)', 'Rectangle_width(row)', '1+']]
 [[loops]]
 ordinal = 1
@@ -177,16 +208,17 @@ __CPROVER_decreases(rows__size - _i_row)
 [[loops]]
 ordinal = 3
 contract = '''
-__CPROVER_assigns(i, missingArea, __CPROVER_object_whole(cellWidth_))
-__CPROVER_loop_invariant(0 <= i && i <= n && missingArea >= 0.0 && missingArea <= 4194304.0)
+__CPROVER_assigns(i, ${CARRY}, __CPROVER_object_whole(cellWidth_))
+__CPROVER_loop_invariant(0 <= i && i <= n && ${CARRY} >= 0.0 && ${CARRY} <= 4194304.0)
 __CPROVER_loop_invariant((cellIsFixed_[g] || g >= i) ==> cellWidth_[g] == g_oldw)
 __CPROVER_decreases(n - i)
 '''
 [[loops]]
 ordinal = 4
+optional = true
 contract = '''
-__CPROVER_assigns(newW, missingArea)
-__CPROVER_loop_invariant(missingArea >= 0.0 && missingArea <= 8388609.0 && newW >= 0 && newW <= 1100000000 && missingArea <= 1100000000.0 - (double)newW)
+__CPROVER_assigns(newW, ${CARRY})
+__CPROVER_loop_invariant(${CARRY} >= 0.0 && ${CARRY} <= 8388609.0 && newW >= 0 && newW <= 1100000000 && ${CARRY} <= 1100000000.0 - (double)newW)
 '''
 [[ghosts]]
 at = 'body_start:1'
@@ -207,7 +239,9 @@ void harness(void) {
 #elif defined(H_FSTEP)
   factor_step(k);
 #elif defined(H_DSTEP)
-  density_step(h, w, d1, d2, mp);
+  density_step(h, d1, mp);
+#elif defined(H_DWIDTH)
+  density_width(h, w, d1, d2);
 #else
   Circuit_expandCellsToDensity(c, d1, d2, d3);
 #endif
